@@ -53,6 +53,7 @@ fn slice(tier: Tier) -> Vec<(String, PProblem)> {
         }
         out.extend(picked.into_iter().map(|p| (name.to_string(), p)));
     }
+    out.extend(family_combo(2).into_iter().step_by(tier.pick(16, 1)).map(|p| ("combo".to_string(), p)));
     out
 }
 
@@ -231,7 +232,7 @@ fn solve_axis(family: &str, problem: &PProblem, report: &mut Report) {
         match solve(problem, &cfg, None, None) {
             Ok(solved) => {
                 let mut seen = std::collections::HashSet::new();
-                for f in oracle::check(problem, &solved.json, &OracleOptions { tol: if family == "scale" { 1. } else { 0. } }) {
+                for f in oracle::check(problem, &solved.json, &OracleOptions { tol: oracle::tolerance(family, problem) }) {
                     if seen.insert(f.rule.clone()) {
                         report.violation(Violation::new(format!("layout:{}:{family}", f.rule), f.what, scen.clone()));
                     }
